@@ -22,11 +22,15 @@ const (
 // CAddr returns the i-th address of wallet C from the independent derivation.
 func (w *World) CAddr(i uint32) (*enum.RefAddr, error) {
 	if w.refC == nil {
-		r, err := enum.NewRefWallet(MnemonicC, PassC)
-		if err != nil {
-			return nil, err
+		// the reference key chain of C is a pure function of two constants: derived once per process
+		if sharedRefC == nil {
+			r, err := enum.NewRefWallet(MnemonicC, PassC)
+			if err != nil {
+				return nil, err
+			}
+			sharedRefC = r
 		}
-		w.refC = r
+		w.refC = sharedRefC
 	}
 	return w.refC.Addr(i)
 }
@@ -59,6 +63,8 @@ func (w *World) ImportC(hint uint32) error {
 	w.CUsedAtImport = w.cUsed()
 	return w.registerC(ws.WalletID)
 }
+
+var sharedRefC *enum.RefWallet
 
 const cSpan = 24
 
